@@ -1,6 +1,6 @@
 /-
-  C12Dist.Witness — non-vacuity witnesses for the hypotheses of the property theorems (`PtOK`, `ExactOK`, the branch
-  taken) on the concrete leaf cell `cX = 0x151f46a85da62db5` (face 0, rectangle `RX`) of `Counter.lean`:
+  C12Dist.Witness — non-vacuity witnesses for the hypotheses of the property theorems (`PtOK`, the branch taken; the
+  former proviso `ExactOK`, which is no longer a hypothesis after repair D58) on the concrete leaf cell `cX = 0x151f46a85da62db5` (face 0, rectangle `RX`) of `Counter.lean`:
   (W1) `pE`: an admissible point LEFT of the cell — edge branch 0, all float tests agree with the exact quantities;
   (W2) `pV = (−1,0,0)`: vertex branch 5;
   (W3) `pI`: an admissible point INSIDE the cell — branch 4, `ExactOK` holds (`ExInside`).
@@ -74,7 +74,7 @@ open Counter Witness
 /-- (W1) an admissible point in the LEFT-EDGE branch whose float tests agree with the exact quantities -/
 theorem witness_edge : PtOK pE ∧ distanceBranch cX pE = 0 ∧ ExactOK cX (faceXYZtoUVW cX.face pE) := by
   rw [cX_eq]
-  refine ⟨⟨by decide, ?_, ?_⟩, by decide +kernel, ?_, ?_, ?_, ?_, ?_⟩
+  refine ⟨⟨by decide, ?_, ?_⟩, by decide +kernel, ⟨?_, ?_, ?_, ?_⟩, ?_⟩
   · rw [PE_eq]; unfold R3.norm2; simp only [PE]; norm_num
   · rw [PE_eq]; unfold R3.norm2; simp only [PE]; norm_num
   · intro _
@@ -96,7 +96,7 @@ theorem witness_vertex : PtOK pV ∧ distanceBranch cX pV = 5 := by
 /-- (W3) an admissible point INSIDE the cell whose float tests agree with the exact quantities -/
 theorem witness_inside : PtOK pI ∧ distanceBranch cX pI = 4 ∧ ExactOK cX (faceXYZtoUVW cX.face pI) := by
   rw [cX_eq]
-  refine ⟨⟨by decide, ?_, ?_⟩, by decide +kernel, ?_, ?_, ?_, ?_, ?_⟩
+  refine ⟨⟨by decide, ?_, ?_⟩, by decide +kernel, ⟨?_, ?_, ?_, ?_⟩, ?_⟩
   · rw [PI_eq]; unfold R3.norm2; simp only [PI]; norm_num
   · rw [PI_eq]; unfold R3.norm2; simp only [PI]; norm_num
   · exact false_imp (by decide +kernel)
